@@ -303,6 +303,16 @@ def run_case(case, res):
                     bad.append(f"to_mermaid_flowchart({kwm}) describes another graph than the default call")
                 if kwm.get("as_markdown") is False and "```" in fpv.getvalue():
                     bad.append("as_markdown=False still emits a code fence")
+            # DOT default attributes (graph / node / edge) are layout only: the described graph stays the same
+            base_dot = attempt(lambda: parse_dot(list(t.to_dot())))
+            for kwd in ({"graph_attrs": {"rankdir": "LR"}}, {"node_attrs": {"shape": "box"}}, {"edge_attrs": {"color": "red"}},
+                        {"graph_attrs": {"rankdir": "LR", "label": "G"}, "node_attrs": {"shape": "box"}, "edge_attrs": {"color": "red"}}):
+                gd = attempt(lambda: parse_dot(list(t.to_dot(**kwd))))
+                res.count("dot_attr_variants")
+                if isinstance(gd, tuple) and gd and gd[0] == "EXC":
+                    bad.append(f"to_dot({kwd}) raised {gd!r}")
+                elif gd != base_dot:
+                    bad.append(f"to_dot({kwd}) describes another graph than the default call")
             tmpd = _tf.mkdtemp(prefix="vmon-c17-")
             try:
                 pth = _os.path.join(tmpd, "g.md")
